@@ -203,3 +203,182 @@ pub fn symptoms(events: &[Event]) -> String {
         format!("deaths=[{}]", d.join(","))
     }
 }
+
+// ---------------------------------------------------------------------------------------------
+// Multi-connection cases: which wire connection is API connection k, and per-connection causes
+// ---------------------------------------------------------------------------------------------
+
+/// Lifetime of one connection object, from the hooks.
+#[derive(Clone, Debug)]
+pub struct VsockLife {
+    pub id: librqbit_utp::verif::VsockId,
+    pub created: Us,
+    pub dropped: Option<Us>,
+}
+
+pub fn vsock_lives(events: &[Event]) -> Vec<VsockLife> {
+    use librqbit_utp::verif::VerifEvent as V;
+    let mut out: Vec<VsockLife> = Vec::new();
+    for e in events {
+        match &e.ev {
+            Ev::Hook(V::VsockCreated { id }) => out.push(VsockLife { id: id.clone(), created: e.t, dropped: None }),
+            Ev::Hook(V::VsockDropped { id, .. }) => {
+                if let Some(l) = out.iter_mut().rev().find(|l| l.id.uid == id.uid) {
+                    l.dropped = Some(e.t);
+                }
+            }
+            _ => {}
+        }
+    }
+    out
+}
+
+/// API connection number -> index of the wire connection whose initiator's first payload is that
+/// connection's token (multi family).
+pub fn token_map(view: &WireView, case_seed: u64) -> std::collections::BTreeMap<u32, usize> {
+    let mut m = std::collections::BTreeMap::new();
+    for (ci, c) in view.conns.iter().enumerate() {
+        for &pi in &c.from_initiator {
+            if let Some(p) = &view.pkts[pi].pkt {
+                if p.ty == wire::ST_DATA && p.payload.len() >= crate::fam::multi::TOKEN_LEN {
+                    if let Some(k) = crate::fam::multi::parse_token(case_seed, &p.payload[..crate::fam::multi::TOKEN_LEN]) {
+                        m.entry(k).or_insert(ci);
+                    }
+                    break;
+                }
+            }
+        }
+    }
+    m
+}
+
+/// The sender `src` re-sent a sequence number of (dst, id) with a different length after the
+/// receiving socket had been handed an earlier version - and both versions came from the one
+/// connection object on `src` that sends to (dst, id) (so this is a re-cut by one sender, not two
+/// connections sharing an id).
+pub fn recut_after_delivery(view: &WireView, lives: &[VsockLife], src: std::net::SocketAddr, dst: std::net::SocketAddr, id: u16) -> Option<Us> {
+    let unique_sender_at = |t: Us| lives.iter().filter(|l| l.id.local == src && l.id.remote == dst && l.id.conn_id_send == id && l.created <= t && l.dropped.map(|d| d >= t).unwrap_or(true)).count() == 1;
+    // seq -> (len, earliest recv of any version, send time of first version)
+    let mut seen: std::collections::BTreeMap<u16, (usize, Option<Us>, Us)> = std::collections::BTreeMap::new();
+    for wp in &view.pkts {
+        if wp.scripted || wp.src != src || wp.dst != dst {
+            continue;
+        }
+        let p = match &wp.pkt {
+            Some(p) if p.ty == wire::ST_DATA && p.conn_id == id => p,
+            _ => continue,
+        };
+        let recv_t = wp.recvs.first().map(|r| r.0);
+        match seen.get_mut(&p.seq) {
+            None => {
+                seen.insert(p.seq, (p.payload.len(), recv_t, wp.t));
+            }
+            Some((len, first_recv, t0)) => {
+                if *len != p.payload.len() {
+                    if let Some(r) = *first_recv {
+                        if r <= wp.t && unique_sender_at(*t0) && unique_sender_at(wp.t) {
+                            return Some(wp.t);
+                        }
+                    }
+                    *len = p.payload.len();
+                }
+                *first_recv = match (*first_recv, recv_t) {
+                    (Some(a), Some(b)) => Some(a.min(b)),
+                    (a, b) => a.or(b),
+                };
+            }
+        }
+    }
+    None
+}
+
+/// Known root causes for API connection `conn`, reader on `side` (multi family): only the
+/// same-connection MTU-probe re-cut applies there (buffers are default-sized, readers greedy).
+pub fn multi_cause(view: &WireView, lives: &[VsockLife], tokens: &std::collections::BTreeMap<u32, usize>, conn: u32, side: usize) -> &'static str {
+    let ci = match tokens.get(&conn) {
+        Some(ci) => *ci,
+        None => return "none",
+    };
+    let c = &view.conns[ci];
+    // reader on side 0 is the initiator: receives from the acceptor on id c; side 1 receives on c+1
+    let (src, dst, id) = if side == 0 { (c.acceptor, c.initiator, c.c) } else { (c.initiator, c.acceptor, c.c.wrapping_add(1)) };
+    if recut_after_delivery(view, lives, src, dst, id).is_some() {
+        "probe-resegmented-after-delivery"
+    } else {
+        "none"
+    }
+}
+
+/// The silence that began at `t` was ended by the sender (direction `from_init`) transmitting,
+/// for the first time, a segment longer than the non-zero window it had last been told - with
+/// everything earlier acknowledged. Segments are cut ahead of transmission for the window in
+/// force at that moment and are not cut again when the window shrinks (the repository pins this
+/// in stream_dispatch/tests/flow_control.rs with a TODO); the segment then leaves through the
+/// timeout path only.
+pub fn silence_ended_by_segment_larger_than_window(view: &WireView, ci: usize, from_init: bool, t: Us) -> bool {
+    let conn = &view.conns[ci];
+    let mut evs: Vec<(Us, usize, bool)> = Vec::new();
+    for pi in conn.dir(from_init) {
+        evs.push((view.pkts[*pi].t, *pi, true));
+    }
+    for pi in conn.dir(!from_init) {
+        if let Some((rt, _)) = view.pkts[*pi].recvs.first() {
+            evs.push((*rt, *pi, false));
+        }
+    }
+    evs.sort();
+    let mut last_wnd: Option<u32> = None;
+    let mut last_ack: Option<u16> = None;
+    let mut sent: std::collections::BTreeSet<u16> = Default::default();
+    let mut highest_sent: Option<u16> = None;
+    for (et, pi, mine) in evs {
+        let p = &view.pkts[pi];
+        let pk = match &p.pkt {
+            Some(k) => k,
+            None => continue,
+        };
+        if !mine {
+            if pk.ty != wire::ST_SYN {
+                last_wnd = Some(pk.wnd);
+                last_ack = Some(pk.ack);
+            }
+            continue;
+        }
+        if pk.ty != wire::ST_DATA {
+            continue;
+        }
+        let first_tx = sent.insert(pk.seq);
+        if et >= t {
+            // the first data transmission at or after the start of the silence decides
+            let all_acked = match (highest_sent, last_ack) {
+                (Some(h), Some(a)) => !wire::seq_lt(a, h),
+                (None, _) => true,
+                _ => false,
+            };
+            return first_tx && all_acked && matches!(last_wnd, Some(w) if w > 0 && (pk.payload.len() as u32) > w);
+        }
+        if first_tx {
+            highest_sent = Some(pk.seq);
+        }
+    }
+    false
+}
+
+/// A connection ended (final hooked state) with nothing in flight, a non-zero remote window, and
+/// its first never-sent segment longer than that window: pre-cut for a larger window, never cut
+/// again (see silence_ended_by_segment_larger_than_window), and with nothing in flight no timer
+/// is left to push it out.
+pub fn ended_with_unsent_segment_larger_than_window(events: &[Event]) -> bool {
+    for e in events {
+        if let Ev::Hook(librqbit_utp::verif::VerifEvent::VsockDropped { snap, .. }) = &e.ev {
+            if snap.flight_size == 0 && snap.last_remote_window > 0 {
+                if let Some(s) = snap.segments.segs.iter().find(|s| s.send_count == 0 && !s.is_delivered) {
+                    if s.payload_size as u32 > snap.last_remote_window {
+                        return true;
+                    }
+                }
+            }
+        }
+    }
+    false
+}
